@@ -653,6 +653,9 @@ func (in *interp) load(T types.Type, addr value) value {
 		if p == nil {
 			panic(runtimePanic{"invalid memory address or nil pointer dereference"})
 		}
+		if in.sched != nil {
+			in.raceCheck(p, false)
+		}
 		return copyVal(*p)
 	case symPtr:
 		return in.loadSym(p)
@@ -720,6 +723,9 @@ func (in *interp) storeCell(p *value, v value) {
 }
 
 func (in *interp) setCell(p *value, v value) {
+	if in.sched != nil {
+		in.raceCheck(p, true)
+	}
 	if in.logging {
 		in.undo = append(in.undo, undoEntry{p: p, old: *p})
 	}
